@@ -79,7 +79,15 @@ def merge_copyright_lines(copyright_lines: set[str]) -> set[str]:
             else:
                 year = f"{min(years)} - {max(years)}"
 
-        copyright_out.add(make_copyright_line(statement, year, prefix))
+        # The statement is the statement part of a notice that was just parsed,
+        # so build the line directly. make_copyright_line would return the
+        # statement verbatim (without prefix and years) if the statement itself
+        # looked like a notice, e.g. 'Copyright Clearance Center'.
+        prefix_text = _COPYRIGHT_PREFIXES[prefix]
+        if year is not None:
+            copyright_out.add(f"{prefix_text} {year} {statement}")
+        else:
+            copyright_out.add(f"{prefix_text} {statement}")
     return copyright_out
 
 
